@@ -193,6 +193,69 @@ func registryWorkload(r *lib.Rand, rounds int) []regRound {
 	return out
 }
 
+// nativesWorkload: library-provided module loaders registered on ONE Registry (console with a custom printer, as the README
+// recommends), loaded by several runtimes on their own goroutines. Each runtime marks its own util module; what its console
+// prints must carry its own mark: a loader that keeps Go-side state across invocations leaks one runtime's modules into another.
+type recPrinter struct {
+	mu   sync.Mutex
+	msgs []string
+}
+
+func (p *recPrinter) Log(s string)   { p.mu.Lock(); p.msgs = append(p.msgs, "log "+s); p.mu.Unlock() }
+func (p *recPrinter) Warn(s string)  { p.mu.Lock(); p.msgs = append(p.msgs, "warn "+s); p.mu.Unlock() }
+func (p *recPrinter) Error(s string) { p.mu.Lock(); p.msgs = append(p.msgs, "error "+s); p.mu.Unlock() }
+
+func nativesWorkload(r *lib.Rand, rounds int) []string {
+	var bad []string
+	for round := 0; round < rounds; round++ {
+		n := 2 + r.Intn(4)
+		pr := &recPrinter{}
+		reg := new(require.Registry)
+		reg.RegisterNativeModule(console.ModuleName, console.RequireWithPrinter(pr))
+		var loaded, logged sync.WaitGroup
+		loaded.Add(n)
+		logged.Add(n)
+		lateLoad := r.Chance(50)
+		for i := 0; i < n; i++ {
+			go func(i int) {
+				defer logged.Done()
+				vm := goja.New()
+				reg.Enable(vm)
+				_, err := vm.RunString(fmt.Sprintf(`var u = require('util'); var __f = u.format; u.format = function(){ return "rt%d:" + __f.apply(u, arguments) }; var c = require('console');`, i))
+				loaded.Done()
+				if err != nil {
+					pr.mu.Lock()
+					bad = append(bad, "script failed: "+err.Error())
+					pr.mu.Unlock()
+					return
+				}
+				if lateLoad {
+					loaded.Wait() // every runtime has loaded console before anybody logs
+				}
+				vm.RunString(fmt.Sprintf(`c.log("m%%d", %d); c.warn("w"); c.error("e %%s", "x")`, i))
+			}(i)
+		}
+		logged.Wait()
+		want := map[string]int{}
+		for i := 0; i < n; i++ {
+			want[fmt.Sprintf("log rt%d:m%d", i, i)]++
+			want[fmt.Sprintf("warn rt%d:w", i)]++
+			want[fmt.Sprintf("error rt%d:e x", i)]++
+		}
+		got := map[string]int{}
+		for _, m := range pr.msgs {
+			got[m]++
+		}
+		for k, v := range want {
+			if got[k] != v {
+				bad = append(bad, fmt.Sprintf("round %d (%d runtimes): expected message %q %d time(s), seen %d; printer received %v", round, n, k, v, got[k], pr.msgs))
+				break
+			}
+		}
+	}
+	return bad
+}
+
 func child() {
 	seed, _ := strconv.ParseUint(os.Getenv("VERIF_CHILD_SEED"), 10, 64)
 	rounds, _ := strconv.Atoi(os.Getenv("VERIF_CHILD_ROUNDS"))
@@ -200,6 +263,11 @@ func child() {
 	if os.Getenv("VERIF_CHILD") == "loop" {
 		loopWorkload(r, rounds)
 		fmt.Println("RESULT {}")
+		return
+	}
+	if os.Getenv("VERIF_CHILD") == "natives" {
+		b, _ := json.Marshal(nativesWorkload(r, rounds))
+		fmt.Println("RESULT " + string(b))
 		return
 	}
 	res := registryWorkload(r, rounds)
@@ -269,6 +337,20 @@ func main() {
 		so, se, code, to := runChild("loop", seed, 6, 120*time.Second)
 		if report("loop", seed, so, se, code, to) {
 			out.Count("loop-batches", "ok")
+		}
+		seed = r.U64()
+		so, se, code, to = runChild("natives", seed, 30, 120*time.Second)
+		if report("natives", seed, so, se, code, to) {
+			var bad []string
+			for _, l := range strings.Split(so, "\n") {
+				if strings.HasPrefix(l, "RESULT ") {
+					json.Unmarshal([]byte(strings.TrimPrefix(l, "RESULT ")), &bad)
+				}
+			}
+			if len(bad) > 0 {
+				out.Fail(len(out.Cases), "module-state-shared-between-runtimes", map[string]interface{}{"workload": "natives", "seed": seed, "what": bad[0], "more": len(bad) - 1})
+			}
+			out.Count("natives-batches", "ok")
 		}
 		seed = r.U64()
 		so, se, code, to = runChild("registry", seed, 40, 120*time.Second)
